@@ -51,7 +51,15 @@ class TableSaving(BaseSaving):
         return self.msize
 
     def _fit(self, X, y=None):
-        self._T = np.asarray(self.table, dtype=float)
+        T = self.table
+        n1 = len(T)
+        p = next(len(v) for row in T for v in row if v is not None)
+        A = np.zeros((n1, n1, p))
+        for i, row in enumerate(T):
+            for j, v in enumerate(row):
+                if v is not None:
+                    A[i, j] = v
+        self._T = A
         return self
 
     def _evaluate(self, cuts):
